@@ -246,7 +246,7 @@ def replay(c):
                 return True, d
         return False, 'strings recovered'
     if c['kind'] == 'hang':
-        return (True, 'exceeded 5 s again') if hist.hangs(name, w['ops']) else (False, 'finished within the limit')
+        return (True, 'exceeded 30 s again') if hist.hangs(name, w['ops']) else (False, 'finished within the limit')
     for k, d in judge_concrete(name, w['ops'], w):
         if k == c['kind']:
             return True, d
